@@ -263,6 +263,11 @@ func (c *flowCtx) fieldStore(a *ssa.Alloc, field int) ssa.Value {
 	var val ssa.Value
 	n := 0
 	for _, r := range *a.Referrers() {
+		if st, ok := r.(*ssa.Store); ok && st.Addr == ssa.Value(a) {
+			return nil // the whole struct is assigned (parameter copy): a field store is not the only source
+		}
+	}
+	for _, r := range *a.Referrers() {
 		fa, ok := r.(*ssa.FieldAddr)
 		if !ok || fa.Field != field || fa.Referrers() == nil {
 			continue
